@@ -16,6 +16,16 @@ def check(ctx):
     from rules import tz as _tz
     _tz.check_utc_guard(ctx, rep)
     hayson.check_member_loop(ctx, rep)
+    ntd = hayson.check_typed_deserializers(ctx, rep)
+    nmg = hayson.check_member_guards(ctx, rep)
+    nrb = hayson.check_members_read_before_ok(ctx, rep)
+    rep.floor("members of tagged-object readers (must-pass before Ok)", nrb, 17)
+    hayson.check_nothing_dropped(ctx, rep, "decode")
+    hayson.check_nothing_dropped(ctx, rep, "encode")
+    nrf = hayson.check_refusals(ctx, rep)
+    rep.floor("tagged-object readers with error paths", nrf, 12)
+    rep.floor("Hayson member / element write sites", nmg, 38)
+    rep.floor("typed Hayson deserializers (impl Deserialize for <kind>)", ntd, 15)
     nok = hayson.check_owned_keys(ctx, rep)
     rep.floor("MapAccess / SeqAccess requests of the Hayson visitor", nok, 2)
     nic = hayson.check_int_casts(ctx, rep)
